@@ -40,7 +40,7 @@ class BrowserLog:
             rec["ok"] = await info.async_request(zc, 3000)
             rec["port"], rec["server"], rec["text"] = info.port, info.server, info.text
             from zeroconf import IPVersion
-            rec["addrs"] = sorted(info.addresses_by_version(IPVersion.All))
+            rec["addrs"] = sorted(set(info.addresses_by_version(IPVersion.All)))  # a set: the same address learnt with and without a scope id is one address
             rec["done"] = True
 
         self.w.spawn(look())
@@ -83,10 +83,11 @@ class Scenario:
             w.net.policy = policy
             nh = 3 if self.name == "three" else 2
             late = bool(self.variant.get("late"))
-            A = w.new_zeroconf(name="A")
-            C = w.new_zeroconf(name="C") if nh == 3 else None
+            socks = self.variant.get("socks", "single")
+            A = w.new_zeroconf(name="A", mode=socks)
+            C = w.new_zeroconf(name="C", mode=socks) if nh == 3 else None
             # the browsing host either hears the link from the start or joins (empty cache) when it starts browsing
-            B = None if late else w.new_zeroconf(name="B")
+            B = None if late else w.new_zeroconf(name="B", mode=socks)
             t0 = w.now_ms
             lookups: List[Dict[str, Any]] = []
             history: List[Tuple[str, Svc, float, Optional[float]]] = []  # name, desc, since, until
@@ -95,7 +96,7 @@ class Scenario:
 
             def start_browser(key: str, host: Any, type_: str) -> None:
                 if host is None:
-                    host = w.new_zeroconf(name="B")
+                    host = w.new_zeroconf(name="B", mode=socks)
                 log = BrowserLog(w, host, lookups)
                 # some variants browse a second type that nobody offers (a multi-type browser must not lose the first)
                 types = [type_, "_unoffered._tcp.local."] if self.variant.get("multi") else type_
@@ -234,7 +235,10 @@ def plan(tier: str) -> List[Tuple[str, Dict[str, Any], int]]:
             ("three", {"browse_at": 500}, 2), ("three", {"browse_at": 6000, "late": True}, 2),
             ("churn", {"update_at": 19500, "browse_at": 400, "unregister_after": 1500, "late": True}, 2),
             ("churn", {"update_at": 19500, "browse_at": 100, "unregister_after": 1150, "late": True}, 2),
-            ("churn", {"update_at": 19500, "browse_at": 400, "unregister_after": 1500}, 1)]
+            ("churn", {"update_at": 19500, "browse_at": 400, "unregister_after": 1500}, 1),
+            # the same link with IPv6-only hosts, and with hosts that send on an IPv4 and an IPv6 socket (every datagram twice)
+            ("unregister", {"browse_at": 0, "socks": "single6"}, 2), ("update-close", {"browse_at": 5000, "late": True, "socks": "single6"}, 2),
+            ("unregister", {"browse_at": 1200, "late": True, "socks": "dual"}, 1), ("three", {"browse_at": 500, "socks": "dual"}, 1)]
 
 
 def run(tier: str, seed: int) -> Tuple[Stats, str, List[str], Dict[str, Any]]:
@@ -248,7 +252,7 @@ def run(tier: str, seed: int) -> Tuple[Stats, str, List[str], Dict[str, Any]]:
             raise HarnessError(f"C07 scenario {name} is not deterministic")
         if a[0] is None and a[2] < 8:
             raise HarnessError(f"C07 scenario {name} is vacuous: {a[2]} datagrams in the default execution")
-        label = f"{name}/{variant['browse_at']}{'/late' if variant.get('late') else ''}{'/multi' if variant.get('multi') else ''}" + (
+        label = f"{name}/{variant['browse_at']}{'/late' if variant.get('late') else ''}{'/multi' if variant.get('multi') else ''}{'/' + variant['socks'] if variant.get('socks') else ''}" + (
             f"/unreg+{variant['unregister_after']}" if name == "churn" else "")
         done = explore_deviations(sc.run, bound, stats, label,
                                   max_execs=None if tier == "quick" else 1_500_000)
